@@ -403,3 +403,4 @@ pub fn pt() -> OptionParser<(bool, Option<OsString>, Vec<OsString>)> {
     let xs = positional::<OsString>("XS").many();
     construct!(a, b, xs).to_options()
 }
+
